@@ -117,6 +117,13 @@ class SigmaValidator:
                 f"Error in parsing of a Sigma validation configuration file: {str(e)}"
             ) from e
 
+    def _ordered_validators(self) -> list[SigmaRuleValidator]:
+        """
+        Validators in a defined order (by class name). The validators are kept in a set, whose
+        iteration order differs between interpreter runs; issues must be reported in a stable order.
+        """
+        return sorted(self.validators, key=lambda validator: validator.__class__.__name__)
+
     def validate_rule(self, rule: SigmaRule) -> list[SigmaValidationIssue]:
         """
         Validate a single rule with all rule validators configured in this SigmaValidator object. A
@@ -132,7 +139,7 @@ class SigmaValidator:
         """
         issues: list[SigmaValidationIssue] = []
         exclusions = self.exclusions[rule.id]
-        for validator in self.validators:
+        for validator in self._ordered_validators():
             if validator.__class__ not in exclusions:  # Skip if validator is excluded for this rule
                 issues.extend(validator.validate(rule))
         return issues
@@ -144,7 +151,9 @@ class SigmaValidator:
         :return: a list of all issues emitted by rule validators on finalization.
         :rtype: list[SigmaValidationIssue]
         """
-        return [issue for validator in self.validators for issue in validator.finalize()]
+        return [
+            issue for validator in self._ordered_validators() for issue in validator.finalize()
+        ]
 
     def validate_rules(self, rules: Iterator[SigmaRule]) -> list[SigmaValidationIssue]:
         """
